@@ -37,6 +37,8 @@ struct Log
 		Event x = {e, token, fd, vf::now() - t0};
 		ev.push_back(x);
 	}
+	bool has(Ev e) { std::lock_guard<std::mutex> l(mu); for (size_t i = 0; i < ev.size(); i++) if (ev[i].e == e) return true; return false; }
+	bool hasFd(Ev e, int fd) { std::lock_guard<std::mutex> l(mu); for (size_t i = 0; i < ev.size(); i++) if (ev[i].e == e && ev[i].fd == fd) return true; return false; }
 	std::string str(size_t maxn = 60)
 	{
 		std::string s;
@@ -64,7 +66,7 @@ struct Server : public SocketServer
 		if (client.waitInput(3)) line = client.readLine();   // token line, or nothing if the peer already closed
 		std::string token = *line;
 		g_log->add(SERVE_ENTER, token, fd);
-		if (serveDelayUs) { struct timespec ts = {0, serveDelayUs * 1000L}; nanosleep(&ts, 0); }
+		if (serveDelayUs) { struct timespec ts = {serveDelayUs / 1000000, (serveDelayUs % 1000000) * 1000L}; nanosleep(&ts, 0); }
 		// the socket handed to serve() must still be a live descriptor for the whole call
 		if (fcntl(fd, F_GETFD) == -1) g_badSocketInServe++;
 		if (token.size()) { String reply = String("echo:") + token.c_str() + "\n"; client.write(*reply, reply.length()); }
@@ -157,7 +159,7 @@ static void clientThread(bool unixSock, int port, std::string path, std::string 
 	g_log->add(CLIENT_CONNECTED, token, fd);
 	if (behaviour == 1) { close(fd); return; }                       // closes before sending anything
 	std::string msg = token + "\n";
-	if (write(fd, msg.data(), msg.size()) != (ssize_t)msg.size()) { close(fd); return; }
+	if (send(fd, msg.data(), msg.size(), MSG_NOSIGNAL) != (ssize_t)msg.size()) { close(fd); return; }
 	if (behaviour == 2) { close(fd); return; }                       // closes before reading the reply
 	std::string line;
 	int r = readLineTimeout(fd, line, 30000);
@@ -172,6 +174,12 @@ static void clientThread(bool unixSock, int port, std::string path, std::string 
 
 static void mode_hist(vf::Ctx& c)
 {
+	// the sanitizer builds run different histories than the plain build (the case index alone would give all three the same ones)
+#if defined(__SANITIZE_THREAD__)
+	c.rng.reseed(c.rng.next() ^ 0x7153a11ULL);
+#elif defined(__SANITIZE_ADDRESS__)
+	c.rng.reseed(c.rng.next() ^ 0xa5a11ULL);
+#endif
 	bool unixSock = c.rng.chance(0.3), sequential = c.rng.chance(0.35);
 	bool blockingStart = c.rng.chance(0.3);   // start() run in an application thread instead of start(true)
 	bool keepCopies = c.rng.chance(0.3);
@@ -181,12 +189,18 @@ static void mode_hist(vf::Ctx& c)
 	uint64_t seed = c.rng.next();
 	int jm = c.rng.below(4);
 	// two-step shutdown: stop(false), the accept loop ends while a serve() call is still in flight, then stop(true)
-	bool twoStep = !sequential && c.rng.chance(0.25);
+	bool twoStep = !sequential && c.idx % 4 == 1;
 	if (twoStep) { N = c.rng.range(2, 8); stopWhen = 1; }
+	// long handler: one serve() call outlives the stop request by 5.5-7 s (stop(true) polls every 100 ms, so > 50 polls)
+	bool longServe = !twoStep && c.idx % 16 == 7;
+	if (longServe) { N = c.rng.range(1, 3); stopWhen = 1; }
+	// descriptor 0: the process runs with stdin closed and the first accepted connection gets descriptor number 0
+	bool fd0 = !twoStep && !longServe && c.idx % 16 == 3;
+	if (fd0 && N == 0) N = 1;
 	std::string path = c.opt->out + vf::fmt("/s%llu.sock", (unsigned long long)c.idx);
 	unlink(path.c_str());
 	c.desc(vf::fmt("%s %s%s%s, %d clients, stop %s%s, jitter %d", unixSock ? "unix" : "tcp", sequential ? "sequential" : "concurrent", blockingStart ? ", start() in its own thread" : "",
-	               keepCopies ? ", serve() keeps a copy of each socket" : "", N, twoStep ? "asynchronously, then again synchronously once the accept loop has ended; first" : "", stopWhen == 0 ? "early" : stopWhen == 1 ? "mid-burst" : "after all", jm));
+	               keepCopies ? ", serve() keeps a copy of each socket" : "", N, twoStep ? "asynchronously, then again synchronously once the accept loop has ended; first " : longServe ? "while a serve() call of 5.5-7 s is in flight, " : fd0 ? "(stdin closed: first connection accepted on descriptor 0) " : "", stopWhen == 0 ? "early" : stopWhen == 1 ? "mid-burst" : "after all", jm));
 	Log log;
 	g_log = &log;
 	g_badSocketInServe = 0;
@@ -199,11 +213,36 @@ static void mode_hist(vf::Ctx& c)
 	Server* srv = new Server;
 	srv->serveDelayUs = c.rng.chance(0.5) ? 0 : c.rng.range(100, 20000);
 	if (twoStep) srv->serveDelayUs = c.rng.range(300000, 700000);
+	if (longServe) srv->serveDelayUs = c.rng.range(5500000, 7000000);
 	srv->setSequential(sequential);
 	srv->keepCopies = keepCopies;
 	bool bound = unixSock ? srv->bindPath(path.c_str()) : srv->bind("127.0.0.1", 0);
 	if (!bound) { delete srv; g_log = 0; sched::off(); c.inconclusive("bind-failed"); return; }
 	int port = unixSock ? 0 : srv->port();
+	std::vector<std::thread> clients;
+	std::vector<std::string> tokens;
+	int launched = 0;
+	auto launch = [&](int k) {
+		for (int i = 0; i < k && launched < N; i++, launched++) {
+			std::string tok = vf::fmt("T%llu-%d", (unsigned long long)c.idx, launched);
+			tokens.push_back(tok);
+			int beh = fd0 && launched == 0 ? 0 : c.rng.chance(0.75) ? 0 : c.rng.range(1, 2);
+			int delay = fd0 && launched == 0 ? 0 : c.rng.chance(0.5) ? 0 : c.rng.range(0, 30000);
+			clients.emplace_back(clientThread, unixSock, port, path, tok, beh, delay);
+			if ((int)clients.size() >= nClientThreadsMax && c.rng.chance(0.3)) { struct timespec ts = {0, 1000000}; nanosleep(&ts, 0); }
+		}
+	};
+	int savedStdin = -1;
+	bool stdinClosed = false;
+	if (fd0) {
+		// the first client connects while the server is bound but not yet accepting (the connection waits in the backlog);
+		// descriptor 0 is then freed, so the accept() that follows returns 0
+		launch(1);
+		for (int i = 0; i < 2000 && !log.has(CLIENT_CONNECTED); i++) { struct timespec ts = {0, 1000000}; nanosleep(&ts, 0); }
+		savedStdin = dup(0);
+		close(0);
+		stdinClosed = true;
+	}
 	std::thread starter;
 	if (blockingStart) {
 		starter = std::thread([&]() { srv->start(); });
@@ -212,21 +251,17 @@ static void mode_hist(vf::Ctx& c)
 	}
 	else srv->start(true);
 
-	std::vector<std::thread> clients;
-	std::vector<std::string> tokens;
-	int launched = 0;
-	auto launch = [&](int k) {
-		for (int i = 0; i < k && launched < N; i++, launched++) {
-			std::string tok = vf::fmt("T%llu-%d", (unsigned long long)c.idx, launched);
-			tokens.push_back(tok);
-			int beh = c.rng.chance(0.75) ? 0 : c.rng.range(1, 2);
-			int delay = c.rng.chance(0.5) ? 0 : c.rng.range(0, 30000);
-			clients.emplace_back(clientThread, unixSock, port, path, tok, beh, delay);
-			if ((int)clients.size() >= nClientThreadsMax && c.rng.chance(0.3)) { struct timespec ts = {0, 1000000}; nanosleep(&ts, 0); }
-		}
-	};
+	if (fd0) {
+		// no other descriptor may be created before that accept() has happened
+		for (int i = 0; i < 5000 && !log.has(ACCEPTED); i++) { struct timespec ts = {0, 1000000}; nanosleep(&ts, 0); }
+		c.count(log.hasFd(ACCEPTED, 0) ? "connections_accepted_on_descriptor_0" : "descriptor_0_variant_without_fd_0");
+	}
 	if (stopWhen == 0) { launch(c.rng.range(0, N)); }
-	else if (stopWhen == 1) { launch(N / 2); struct timespec ts = {0, (long)c.rng.range(0, 20) * 1000000L}; nanosleep(&ts, 0); }
+	else if (stopWhen == 1) {
+		launch(longServe ? 1 : N / 2);
+		struct timespec ts = {0, (long)c.rng.range(0, 20) * 1000000L}; nanosleep(&ts, 0);
+		if (longServe) { for (int i = 0; i < 5000 && !log.has(SERVE_ENTER); i++) { struct timespec t1 = {0, 1000000}; nanosleep(&t1, 0); } c.count(log.has(SERVE_ENTER) ? "long_serve_in_flight_at_stop" : "long_serve_not_started_before_stop"); }
+	}
 	else { launch(N); for (auto& t : clients) t.join(); clients.clear(); }
 
 	std::thread late;
@@ -256,7 +291,7 @@ static void mode_hist(vf::Ctx& c)
 			int fd = connectTo(unixSock, port, path);
 			if (fd < 0) return;
 			std::string msg = tok + "\n";
-			ssize_t w = write(fd, msg.data(), msg.size());
+			ssize_t w = send(fd, msg.data(), msg.size(), MSG_NOSIGNAL);
 			(void)w;
 			struct timespec ts = {0, 150000000};
 			nanosleep(&ts, 0);
@@ -268,6 +303,7 @@ static void mode_hist(vf::Ctx& c)
 	if (blockingStart) starter.join();   // the accept loop has ended, so the blocking start() call returns by itself
 	delete srv;
 	log.add(DESTROYED);
+	if (stdinClosed) { if (savedStdin >= 0) { dup2(savedStdin, 0); close(savedStdin); } }
 	{ struct timespec ts = {0, 200000000}; nanosleep(&ts, 0); }   // a thread touching the destroyed server now is caught by ASan
 	uint64_t eh = sched::g().ehash.load();
 	sched::off();
